@@ -32,7 +32,8 @@ type BE struct {
 
 // Op06 kinds: upd (Update k v; v=-1 is the empty-value deletion), del (Delete k), batch
 // (UpdateBatch), hash, get, iter, commit (Commit + triedb.Update [+flush] [+cold restart] + reopen),
-// prefetch (Trie.Prefetch of the listed keys).
+// prefetch (Trie.Prefetch of the listed keys), copy (Trie.Copy, modified by B, root-checked,
+// [committed], dropped; Cold = read every key first).
 type Op06 struct {
 	T     string `json:"t"`
 	K     int    `json:"k,omitempty"`
@@ -209,6 +210,23 @@ func Gen06(r *simcore.Rand, tier string) any {
 		}
 	}
 	for len(p.Ops) < nops {
+		if r.Bool(0.05) {
+			// Trie.Copy: the copy gets its own (mostly deleting) updates and is dropped
+			var b []BE
+			ll := liveList()
+			n := r.Range(1, 10)
+			for i := 0; i < n; i++ {
+				if len(ll) > 0 && r.Bool(0.8) {
+					j := r.Intn(len(ll))
+					b = append(b, BE{ll[j], -1})
+					ll = append(ll[:j], ll[j+1:]...)
+				} else {
+					b = append(b, BE{r.Intn(nk), r.Intn(nv)})
+				}
+			}
+			p.Ops = append(p.Ops, Op06{T: "copy", B: b, Flush: r.Bool(0.4), Cold: r.Bool(0.6)})
+			continue
+		}
 		switch r.Pick(22, 10, 30, 8, 8, 4, 12, 3) {
 		case 0:
 			v := r.Intn(nv)
@@ -716,6 +734,53 @@ func (w *world06) run() *simcore.Violation {
 				return simcore.Violf("iteration-mismatch", "%s: %s", where, d)
 			}
 			w.res.Probe("full-iteration")
+		case "copy":
+			// Cold: read every pool key first (the copy inherits the resolved nodes and
+			// the recorded previous values); Flush: the copy is committed before it is dropped.
+			if op.Cold {
+				err := w.sut(false, func() error {
+					for i := range p.Keys {
+						if _, e := w.tr.Get(w.key(i)); e != nil {
+							return e
+						}
+					}
+					return nil
+				})
+				if f, viol := w.faulted(where, err); f {
+					if viol != nil {
+						return viol
+					}
+					continue
+				}
+				if err != nil {
+					return simcore.Violf("op-error", "%s: Get before Copy failed without an injected fault: %v", where, err)
+				}
+			}
+			cp := w.tr.Copy()
+			cm := w.m.clone()
+			for j, e := range op.B {
+				k, v := w.key(e.K), w.val(e.V)
+				var err error
+				if len(v) == 0 && j%2 == 0 {
+					err = cp.Delete(k)
+				} else {
+					err = cp.Update(k, v)
+				}
+				if err != nil {
+					return simcore.Violf("op-error", "%s: update of %x on the copy failed: %v", where, k, err)
+				}
+				cm.set(k, v)
+			}
+			want := cm.root()
+			if h := cp.Hash(); h != want {
+				return simcore.Violf("copy-root-mismatch", "%s: root of the modified copy %x, root of its key/value set %x", where, h, want)
+			}
+			if op.Flush {
+				if r, _ := cp.Commit(false); r != want {
+					return simcore.Violf("copy-root-mismatch", "%s: Commit of the copy returned %x, expected %x", where, r, want)
+				}
+			}
+			w.res.Probe("copy-dropped")
 		case "commit":
 			if v := w.commit(where, op); v != nil {
 				return v
